@@ -55,14 +55,14 @@ From PS.Gen Require CApi.
 
 (* str_split as translated (offsets into the buffer, separators overwritten in place): the count returned and the tokens designated are the mirror's, for every NUL-free content *)
 Theorem C09_code_tie_split :
-  forall (fuel : nat) (tail : list Z),
+  forall (fuel : nat) (sgn : bool) (tail : list Z),
          tail = [] \/ (exists r : list Z, tail = 0%Z :: r) ->
          forall (content : bytes) (words0 : list Z),
          no_nul content ->
          Datatypes.length words0 = 16%nat ->
          (Datatypes.length content + 2 <= fuel)%nat ->
          exists Bf' words' : list Z,
-           CApi.str_split fuel (zs content ++ tail) words0 =
+           CApi.str_split fuel sgn (zs content ++ tail) words0 =
            Some (Bf', words', Z.of_nat (fst (str_split content))) /\
            Datatypes.length words' = 16%nat /\ Q Bf' words' (snd (str_split content)).
 Proof. exact @tie_str_split. Qed.
